@@ -267,6 +267,22 @@ theorem new_loop_run (ao n cap : UInt64) (comment : Bytes) (capN : Nat) (hcap : 
   simp only [mkRes, allocRes, namesMapOf, Rs.Vec.with_capacity, List.map_nil, List.nil_append,
     List.length_nil, hcap, hc2]
 
+/-- `cde_start_pos.saturating_sub(directory_start) / 46` in natural numbers -/
+theorem maxFiles_toNat (cde ds : UInt64) :
+    (Rs.saturatingSub cde ds / 46).toNat = (cde.toNat - ds.toNat) / 46 := by
+  have e46 : (46 : UInt64).toNat = 46 := by decide
+  have e0 : (0 : UInt64).toNat = 0 := by decide
+  rw [UInt64.toNat_div, e46]
+  congr 1
+  unfold Rs.saturatingSub
+  show ((if ds.toNat ≤ cde.toNat then some (cde - ds) else none).getD 0).toNat = _
+  split
+  · rename_i h
+    simp only [Option.getD_some]
+    exact UInt64.toNat_sub_of_le _ _ (UInt64.le_iff_toNat_le.mpr h)
+  · simp only [Option.getD_none, e0]
+    omega
+
 /-- `ZipArchive::new` -/
 theorem tie_zip_archive_new (fa : Option Nat) (d : Dev) (hd : d.buf.length < 2 ^ 64) :
     (archRes <$> Gen.ZipArchive.new) fa d = (allocRes <$> Model.openArchiveAlloc) fa d := by
@@ -305,9 +321,14 @@ theorem tie_zip_archive_new (fa : Option Nat) (d : Dev) (hd : d.buf.length < 2 ^
       refine bind_congr fun x => ?_
       have hds : (countsRes x).2.fst = x.2.fst.toNat := rfl
       rw [hds]
-      have hcde : Rs.as' UInt64 cde = cde := rfl
-      rw [hcde]
-      by_cases hgt : x.2.snd > cde
+      have hdiv : Rs.Arith.div (Rs.saturatingSub cde x.2.fst) (46 : UInt64) =
+          some (Rs.saturatingSub cde x.2.fst / 46) := rfl
+      rw [hdiv]
+      simp only [pure_bind]
+      have hn : Rs.as' UInt64 x.2.snd = x.2.snd := rfl
+      rw [hn]
+      have hmax := maxFiles_toNat cde x.2.fst
+      by_cases hgt : x.2.snd > Rs.saturatingSub cde x.2.fst / 46
       · rw [if_pos (by simpa using hgt)]
         refine bind_congr fun r => ?_
         cases r with
@@ -315,8 +336,9 @@ theorem tie_zip_archive_new (fa : Option Nat) (d : Dev) (hd : d.buf.length < 2 ^
         | ok p =>
           simp only [Except.map, Except.isOk, Except.toBool, Bool.not_true, Bool.false_eq_true, ↓reduceIte]
           have := new_loop_run x.fst x.2.snd 0 footer.zip_file_comment
-            (fileCapacity (countsRes x).2.snd cde.toNat) (by
-              have : x.2.snd.toNat > cde.toNat := UInt64.lt_iff_toNat_lt.mp hgt
+            (fileCapacity (countsRes x).2.snd cde.toNat x.2.fst.toNat) (by
+              have : x.2.snd.toNat > (cde.toNat - x.2.fst.toNat) / 46 := by
+                rw [← hmax]; exact UInt64.lt_iff_toNat_lt.mp hgt
               simp only [fileCapacity, countsRes, this, ↓reduceIte]; decide)
           rw [this]
           msimp
@@ -328,8 +350,9 @@ theorem tie_zip_archive_new (fa : Option Nat) (d : Dev) (hd : d.buf.length < 2 ^
         | ok p =>
           simp only [Except.map, Except.isOk, Except.toBool, Bool.not_true, Bool.false_eq_true, ↓reduceIte]
           have := new_loop_run x.fst x.2.snd x.2.snd footer.zip_file_comment
-            (fileCapacity (countsRes x).2.snd cde.toNat) (by
-              have : ¬ x.2.snd.toNat > cde.toNat := fun h => hgt (UInt64.lt_iff_toNat_lt.mpr h)
+            (fileCapacity (countsRes x).2.snd cde.toNat x.2.fst.toNat) (by
+              have : ¬ x.2.snd.toNat > (cde.toNat - x.2.fst.toNat) / 46 := fun h =>
+                hgt (UInt64.lt_iff_toNat_lt.mpr (by rw [hmax]; exact h))
               simp only [fileCapacity, countsRes, this, ↓reduceIte])
           rw [this]
           msimp
